@@ -40,7 +40,7 @@ def plan(tier, seed):
 
 
 def gen_vector(rng):
-    cls = rng.choice(["normal", "ties", "constant", "negative", "zeros", "single", "perfect", "positive", "empty", "offset"])
+    cls = rng.choice(["normal", "ties", "constant", "negative", "zeros", "single", "perfect", "positive", "empty", "offset", "tiny"])
     n = rng.choice([2, 3, 5, 8, 13, 30, 60])
     if cls == "single":
         n = 1
@@ -60,6 +60,11 @@ def gen_vector(rng):
              for _ in range(n)]
         if which == "both":
             f = [f[0]] * n
+    elif cls == "tiny":
+        # physically small numbers (a flux in kg m-2 s-1, a mixing ratio): scores that are scale invariant stay defined
+        sc = rng.choice([1e-5, 1e-6, 1e-8])
+        o = [round(rng.gauss(5, 4), 3) * sc for _ in range(n)]
+        f = [x + round(rng.gauss(0.5, 2), 3) * sc for x in o]
     elif cls == "offset":
         # a forecast that is the observation plus a (nearly) constant offset that is not exact in binary: the spread of the
         # errors is tiny compared with their mean (numerically delicate for variance-type scores)
